@@ -39,6 +39,27 @@ theorem refines (R : Renderable ρ O) (f : Req → RRes O) (i : Init) (r0 : ρ)
     simp only [Except.map, outputs, Spec.outputs]
     rw [(sim_run R f ops s t hrel).2]
 
+/-- POSTPONED. The iterator of a renderable constructed with `FrameCount.POSTPONED` is, from
+    construction on and under every history, the iterator of the count `_get_frame_count_()` resolves
+    to (INDEFINITE or definite): same construction result, hence (by `refines`) same observations. -/
+theorem postponed_as_resolved (res : Option Nat) (i : Init) (r0 : ρ) :
+    initD (O := O) (.postponed res) i r0 =
+      initD (match res with | none => .indefinite | some n => .definite n) i r0 ∧
+    ∀ (R : Renderable ρ O) (f : Req → RRes O),
+      (cachedDecision res i.cache = true → IsPure R f) → ∀ ops : List Op,
+      (initD (O := O) (.postponed res) i r0).map (fun s => outputs R s ops) =
+        (Spec.init { i with count := res } r0).map (fun t => Spec.outputs R t ops) := by
+  constructor
+  · cases res <;> rfl
+  · intro R f hP ops
+    exact refines R f { i with count := res } r0 hP ops
+
+/-- the constructed state carries the *resolved* count (and the `_cached` decision made over it) -/
+theorem initD_resolved (d : Declared) (i : Init) (r0 : ρ) (s : St ρ O) (h : initD d i r0 = .ok s) :
+    s.count = d.resolve ∧ s.cached = cachedDecision d.resolve i.cache := by
+  obtain ⟨_, _, _, _, hs⟩ := init_shape { i with count := d.resolve } r0 s h
+  rw [hs]; exact ⟨rfl, rfl⟩
+
 /-- `starts_at_zero`: whatever the renderable's own current frame (`i.rFrame`, which is what the
     render data's `frame_offset` holds when the iterator receives it), the first `next` asks the
     renderable for frame 0 (INDEFINITE: offset 0 from START), with the initial settings. -/
